@@ -5,6 +5,7 @@ import FlVerif.Lemmas.TermTie
 import FlVerif.Lemmas.TermSpecial
 import FlVerif.Lemmas.TermRange
 import FlVerif.Lemmas.Interp
+import FlVerif.Lemmas.TermMono
 
 /-! # C03 — Membership functions match their documented definitions
 
@@ -563,6 +564,61 @@ theorem at_sigmoid (i sl h : ℝ) : Mu.sigmoid F i sl h i = h / 2 := by
 theorem at_spike (c w h : ℝ) : Mu.spike F c w h c = h := by simp [Mu.spike, Fn.real]
 
 end real
+
+/-! ## 4. terms that declare themselves monotonic are monotone in x, in the direction of their parameters -/
+
+/-- the regenerated `is_monotonic()` flags are the documented ones -/
+theorem isMonotonic_table : Gen.isMonotonicTable = Spec.isMonotonicTable := by decide
+
+/-- the table entry of a term's class is `Spec.isMonotonic` -/
+theorem isMonotonic_lookup (t : Term ℝ) (hnd : ∀ pts h, t ≠ .discrete pts h) (hnc : ∀ k, t ≠ .constant k) :
+    Spec.isMonotonicTable.lookup t.cls = some (isMonotonic t) := by
+  cases t <;> first | exact absurd rfl (hnd _ _) | exact absurd rfl (hnc _) | (simp only [Term.cls, isMonotonic]; decide)
+
+theorem monotone_generic {α : Type} [Field α] [LinearOrder α] [IsStrictOrderedRing α] (s e h : α) (hh : 0 ≤ h) :
+    (s < e → Monotone (Mu.ramp s e h)) ∧ (e < s → Antitone (Mu.ramp s e h)) ∧
+    (s < e → Monotone (Mu.concave s e h)) ∧ (e < s → Antitone (Mu.concave s e h)) ∧
+    (s < e → Monotone (Mu.sShape s e h)) ∧ (s < e → Antitone (Mu.zShape s e h)) :=
+  ⟨fun h1 => TermMono.ramp_mono s e h h1 hh, fun h1 => TermMono.ramp_anti s e h h1 hh,
+   fun h1 => TermMono.concave_mono s e h h1 hh, fun h1 => TermMono.concave_anti s e h h1 hh,
+   fun h1 => TermMono.sShape_mono s e h h1 hh, fun h1 => TermMono.zShape_anti s e h h1 hh⟩
+
+/-- every valid term of a monotonic class is monotone: non-decreasing when `Spec.increasing`, non-increasing otherwise -/
+theorem monotone (t : Term ℝ) (hv : t.Valid) (hm : isMonotonic t = true) :
+    if increasing t = true then Monotone (mu Fn.real t) else Antitone (mu Fn.real t) := by
+  obtain ⟨hs, hh⟩ := hv
+  cases t with
+  | arc s e h =>
+    have hpos : 0 < h := hh.1
+    rcases lt_or_gt_of_ne hs with h1 | h1
+    · simp only [increasing, h1, decide_true, if_true]; exact TermMono.arc_mono s e h h1 hpos.le
+    · simp only [increasing, not_lt.2 h1.le, decide_false, Bool.false_eq_true, if_false]
+      exact TermMono.arc_anti s e h h1 hpos.le
+  | concave i e h =>
+    have hpos : 0 < h := hh.1
+    rcases lt_or_gt_of_ne hs with h1 | h1
+    · simp only [increasing, h1, decide_true, if_true]; exact TermMono.concave_mono i e h h1 hpos.le
+    · simp only [increasing, not_lt.2 h1.le, decide_false, Bool.false_eq_true, if_false]
+      exact TermMono.concave_anti i e h h1 hpos.le
+  | ramp s e h =>
+    have hpos : 0 < h := hh.1
+    rcases lt_or_gt_of_ne hs with h1 | h1
+    · simp only [increasing, h1, decide_true, if_true]; exact TermMono.ramp_mono s e h h1 hpos.le
+    · simp only [increasing, not_lt.2 h1.le, decide_false, Bool.false_eq_true, if_false]
+      exact TermMono.ramp_anti s e h h1 hpos.le
+  | sigmoid i sl h =>
+    have hpos : 0 < h := hh.1
+    rcases lt_or_gt_of_ne hs with h1 | h1
+    · simp only [increasing, not_lt.2 h1.le, decide_false, Bool.false_eq_true, if_false]
+      exact TermMono.sigmoid_anti i sl h h1 hpos.le
+    · simp only [increasing, h1, decide_true, if_true]; exact TermMono.sigmoid_mono i sl h h1 hpos.le
+  | sShape s e h =>
+    have hpos : 0 < h := hh.1
+    simp only [increasing, if_true]; exact TermMono.sShape_mono s e h hs hpos.le
+  | zShape s e h =>
+    have hpos : 0 < h := hh.1
+    simp only [increasing, Bool.false_eq_true, if_false]; exact TermMono.zShape_anti s e h hs hpos.le
+  | _ => simp [isMonotonic] at hm
 
 /-! ## `Discrete`: laws of the interpolation model `Op.interp` (tied to `numpy.interp` by the correspondence) -/
 
